@@ -21,6 +21,7 @@ import DosModel.Proofs.HandlersDkg
 import DosModel.Proofs.HandlersNode
 import DosModel.Proofs.HandlersIso
 import DosModel.Proofs.HandlersChain
+import DosModel.Proofs.HandlersDoc
 
 namespace Dos.Props.C12
 open Dos Dos.Handlers
@@ -42,7 +43,7 @@ theorem guarded_sites_checked : guardedOK = true := by decide +kernel
 
 /-- how the sites are accounted for: (modelled — flag / cross-function flag / model branch —,
 safe by extracted guard (checked above), safe by prose argument: the trusted classifications) -/
-theorem classification_counts : classCounts = (101, 141, 106) := by decide +kernel
+theorem classification_counts : classCounts = (101, 141, 111) := by decide +kernel
 
 /-- the session layer has exactly three statement lists that close a reply channel — completion in
 `handlePeerMsg`, completion in `handleRequest`, the expiry sweep in `Loop` —; their clean-up operations
@@ -356,6 +357,37 @@ theorem getBootIps_total (urlOK fetched : Bool) (commas : Nat) : (getBootIps Cfg
 example : getBootIps Cfg.all false false 0 = .ok "0" := by decide
 -- before d508404: a URL that does not parse
 example : (getBootIps { Cfg.all with bootReq := false } false false 0).isPanic = true := by decide
+
+/-- **dataParse, nesting depth** (/repo 14409e8): whatever the fetched document — any bytes on the JSON side, any
+tree on the XML side — the recursive evaluators are reached only with a document nested at most
+`maxDocumentDepth` levels (as the scanner / the tree height see it); a deeper one is answered with an error.
+The evaluators themselves are third party (fuzzed, not modelled). -/
+theorem dataParse_depth_total (doc : Bytes) (t : XTree) :
+    (dataParseJson Cfg.current doc).isPanic = false ∧ (dataParseXml Cfg.current t).isPanic = false
+    ∧ (dataParseJson Cfg.current doc = .ok "eval" → jsonDepthExceeds maxDocumentDepth doc = false)
+    ∧ (dataParseXml Cfg.current t = .ok "eval" → t.height ≤ maxDocumentDepth) := by
+  rw [guards_present]
+  refine ⟨docGuard_total _, docGuard_total _, docGuard_eval _, fun h => ?_⟩
+  have := docGuard_eval _ h
+  simpa [xmlDepthExceeds] using this
+-- `["]]",[{}]]` (closing brackets inside a string do not count) and, with bound 1, the same document refused
+example : dataParseJson Cfg.all [0x5b, 0x22, 0x5d, 0x5d, 0x22, 0x2c, 0x5b, 0x7b, 0x7d, 0x5d, 0x5d] = .ok "eval" := by decide
+example : jsonDepthExceeds 2 [0x5b, 0x22, 0x5d, 0x5d, 0x22, 0x2c, 0x5b, 0x7b, 0x7d, 0x5d, 0x5d] = true := by decide
+example : jsonDepthExceeds 3 [0x5b, 0x22, 0x5d, 0x5d, 0x22, 0x2c, 0x5b, 0x7b, 0x7d, 0x5d, 0x5d] = false := by decide
+example : dataParseXml Cfg.all (XTree.chain 3) = .ok "eval" := by decide
+-- before 14409e8: no bound, the evaluators recurse once per level (fatal stack overflow from 8·10⁵ levels on)
+example : (docGuard { Cfg.all with parseDepth := false } true).isPanic = true := by decide
+
+/-- nesting cannot be hidden from the scanner by what follows it: more than `max` opening brackets at the start
+of a document are refused whatever the rest of the document is (closing brackets inside strings included) -/
+theorem dataParse_refuses_nested (k : Nat) (rest : Bytes) (h : k > maxDocumentDepth) :
+    dataParseJson Cfg.current (List.replicate k 0x5b ++ rest) = .err "deep"
+    ∧ dataParseXml Cfg.current (XTree.chain k) = .err "deep" := by
+  rw [guards_present]
+  constructor
+  · simp [dataParseJson, jsonDepthExceeds_nested _ _ _ h, docGuard, Cfg.all]
+  · simp [dataParseXml, xmlDepthExceeds, chain_height, h, docGuard, Cfg.all]
+example : 1001 > maxDocumentDepth := by decide
 
 theorem messageDispatch_total (f : Feed) : (messageDispatch Cfg.current f).isPanic = false := by
   rw [guards_present]; exact Handlers.messageDispatch_total f
